@@ -857,6 +857,20 @@ fn multi_mutants(mp: &MultiProof, pool: &Pool, fam: &[Key], extremes: bool) -> V
                 out.push(("multi-depth", m));
             }
         }
+        if extremes {
+            // an over-deep claim backed by enough siblings to cover it (the sibling-count guards
+            // pass, only a depth check against the key length can stop it)
+            for nd in [255usize, 256, 257, 300] {
+                for keep_own in [false, true] {
+                    let mut m = mp.clone();
+                    m.paths[i].depth = nd;
+                    let mut sib = if keep_own { mp.siblings.clone() } else { vec![] };
+                    sib.resize(nd + 8, TERMINATOR);
+                    m.siblings = sib;
+                    out.push(("multi-depth-covered", m));
+                }
+            }
+        }
         let mut m = mp.clone();
         m.paths.remove(i);
         out.push(("multi-path-dropped", m));
@@ -1736,7 +1750,7 @@ impl Engine for ProofX {
                 // a multi-proof with more than 65 535 siblings (verdicts only)
                 cases.push(json!({"mode": "huge", "bound": 1, "panic_only": true}));
                 cases.sort_by_key(|c| c["bound"].as_u64().unwrap());
-                let mut p = Plan::new(cases, format!("proofx: every object of the C08 mutation grammar without the 'verifies' filter plus structural extremes (depth ∈ {{0,1,255,256,257,2^63,usize::MAX}}, 255..300 siblings, empty/duplicated/prefix-related path lists, key slices of length 0/3/len/256, operation lists empty/unsorted/duplicated/out-of-scope/all-keys), over every key set S of ≤{smax} keys; each public verifier entry point (PathProof::verify, confirm_*, verify_update, verify_multi_proof, confirm_*_with_index for every valid index, find_index_for, verify_multi_proof_update) is called under catch_unwind in an isolated child process with a timeout; any panic / abort / timeout is a violation, fingerprinted by (entry point, mutation class, panic class). Plus values only a deserialiser can build (nomt-core's serde feature): every honest path proof and every multi-proof over ≤2 and over all keys of every S of ≤2 (thorough 3) keys is serialised, every integer field (terminator depth, node index, multi-path depth) is replaced by each of {{0,1,255,256,257,300,4095,65535}}, and whatever deserialises is fed to every entry point."));
+                let mut p = Plan::new(cases, format!("proofx: every object of the C08 mutation grammar without the 'verifies' filter plus structural extremes (depth ∈ {{0,1,255,256,257,2^63,usize::MAX}}, depth ∈ {{255,256,257,300}} backed by that many siblings, 255..300 siblings, empty/duplicated/prefix-related path lists, key slices of length 0/3/len/256, operation lists empty/unsorted/duplicated/out-of-scope/all-keys), over every key set S of ≤{smax} keys; each public verifier entry point (PathProof::verify, confirm_*, verify_update, verify_multi_proof, confirm_*_with_index for every valid index, find_index_for, verify_multi_proof_update) is called under catch_unwind in an isolated child process with a timeout; any panic / abort / timeout is a violation, fingerprinted by (entry point, mutation class, panic class). Plus values only a deserialiser can build (nomt-core's serde feature): every honest path proof and every multi-proof over ≤2 and over all keys of every S of ≤2 (thorough 3) keys is serialised, every integer field (terminator depth, node index, multi-path depth) is replaced by each of {{0,1,255,256,257,300,4095,65535}}, and whatever deserialises is fed to every entry point."));
                 p.budget_s = if thorough { 1700 } else { 55 };
                 p.isolate = true;
                 p.case_timeout_s = 600;
